@@ -60,6 +60,12 @@ fn case_strategy(_tier: Tier) -> BoxedStrategy<HedgeCase> {
         1 => prop_oneof![Just(1u32), Just(500u32), Just(999u32), 1u32..=999].prop_map(Delay::FixedMicros),
         3 => prop::collection::vec(prop_oneof![2 => Just(0u64), 2 => (1u64..=5).prop_map(|k| k * 10), 1 => 1u64..=60], 1..=4)
             .prop_map(Delay::PerAttempt),
+        // "hedge k times, then stop": the remaining delays are Duration::MAX
+        1 => prop::collection::vec(prop_oneof![1 => Just(0u64), 3 => (1u64..=5).prop_map(|k| k * 10)], 1..=2)
+            .prop_map(|mut v| {
+                v.push(u64::MAX);
+                Delay::PerAttempt(v)
+            }),
     ];
     let lat = prop_oneof![
         2 => Just(0u64),
@@ -150,7 +156,10 @@ async fn interp(case: &HedgeCase) -> Verdict {
         Delay::PerAttempt(v) => {
             let v = v.clone();
             b.delay_fn(move |k| {
-                Duration::from_millis(*v.get(k.saturating_sub(1)).or(v.last()).unwrap_or(&0))
+                match *v.get(k.saturating_sub(1)).or(v.last()).unwrap_or(&0) {
+                    u64::MAX => Duration::MAX,
+                    ms => Duration::from_millis(ms),
+                }
             })
         }
     };
@@ -168,7 +177,12 @@ async fn interp(case: &HedgeCase) -> Verdict {
     let fut = svc.call(req.clone());
     let task = sim.spawn_call(fut, map_outcome);
     sim.settle().await;
-    let total_delay: u64 = (1..case.max).map(|k| delay_ms(&case.delay, k)).sum();
+    // u64::MAX in a per-attempt table stands for Duration::MAX ("no further hedge"): such an
+    // attempt must never start within the horizon
+    let total_delay: u64 = (1..case.max)
+        .map(|k| delay_ms(&case.delay, k))
+        .filter(|&d| d != u64::MAX)
+        .sum();
     // every hedge may be seen up to one step late
     let horizon = total_delay + 320 + (case.max as u64 + 2) * case.step_ms + case.clone_ready_ms;
     let step = case.step_ms.max(1);
@@ -208,7 +222,7 @@ async fn interp(case: &HedgeCase) -> Verdict {
     let all_zero = (1..case.max).all(|k| delay_ms(&case.delay, k) == 0);
     for k in 1..nstart {
         let d = if k < case.max { delay_ms(&case.delay, k) } else { 0 };
-        if starts[k].0 < starts[k - 1].0 + d {
+        if starts[k].0 < starts[k - 1].0.saturating_add(d) {
             violations.push(format!(
                 "attempt {k} started at t={} only {} ms after attempt {} (t={}), configured delay before attempt {k} is {d} ms",
                 starts[k].0,
@@ -265,7 +279,12 @@ async fn interp(case: &HedgeCase) -> Verdict {
     }
     match &resolve {
         None => {
-            if sim.state(task) == TaskState::Live {
+            // with a Duration::MAX delay ahead and no success so far the call rightly keeps waiting
+            let waits_for_a_hedge_that_never_comes = (1..case.max)
+                .any(|k| delay_ms(&case.delay, k) == u64::MAX)
+                && nstart < case.max
+                && (0..nstart).all(|k| !fin(k).1);
+            if sim.state(task) == TaskState::Live && !waits_for_a_hedge_that_never_comes {
                 violations.push(format!(
                     "the hedged call had not resolved {} ms after it began although every scripted attempt finishes within 300 ms of its start ({} attempts started)",
                     horizon, nstart
